@@ -22,6 +22,14 @@ func normalize(obj any) (any, error) {
 	case json.Number:
 		return normalizeNumber(obj2)
 
+	case int64:
+		// TOML decodes integers as int64; YAML and JSON layers hold int.
+		if obj2 == int64(int(obj2)) {
+			return int(obj2), nil
+		}
+
+		return obj2, nil
+
 	default:
 		return obj2, nil
 	}
